@@ -196,3 +196,321 @@ func init() {
 			"Definition public_name : string := " + coqString(public[1]) + ".\n"
 	}
 }
+
+// ---------------------------------------------------------------------------------------------
+// VisibilityFlow (property C33, end-to-end part): the three statements outside src/core on which
+// "a build fails exactly when some edge is not permitted" also rests are TRANSLATED (not only
+// pinned) into Gen/VisibilityFlow.v; Model/C33_E2E.v executes the translated definitions and
+// Proof/C33_E2E.v proves its theorems about them, so that a change of the source changes the
+// generated program and breaks the proof instead of the translator:
+//   - src/build/build_step.go  buildTarget: the order of validation, early returns and build
+//     effects on the local and on the remote path (a list of steps);
+//   - src/parse/asp/targets.go parseVisibility: which strings are turned into WholeGraph[0]
+//     unconditionally / under Bazel compatibility; populateTarget: the first-element shortcut;
+//   - src/parse/asp/objects.go pyConfig.Merge: the little program that brings the CONFIG of a
+//     subincluded file into the package's own overlay (fresh allocation vs. adopting the map).
+
+func flowStr(e ast.Expr) (string, bool) {
+	if l, ok := e.(*ast.BasicLit); ok && l.Kind == token.STRING {
+		return unquote(l), true
+	}
+	return "", false
+}
+
+func flowUnparen(e ast.Expr) ast.Expr {
+	for {
+		p, ok := e.(*ast.ParenExpr)
+		if !ok {
+			return e
+		}
+		e = p.X
+	}
+}
+
+func flowDisjuncts(e ast.Expr) []ast.Expr {
+	e = flowUnparen(e)
+	if b, ok := e.(*ast.BinaryExpr); ok && b.Op == token.LOR {
+		return append(flowDisjuncts(b.X), flowDisjuncts(b.Y)...)
+	}
+	return []ast.Expr{e}
+}
+
+// flowBuildSteps linearises one path (local or remote) of buildTarget into the step names of the
+// generated inductive type.
+type flowPath struct{ steps []string }
+
+func (p *flowPath) add(s string) {
+	if s != "BValidate" {
+		for _, x := range p.steps {
+			if x == s {
+				return
+			}
+		}
+	}
+	p.steps = append(p.steps, s)
+}
+
+func flowScan(fset *token.FileSet, n ast.Node, paths ...*flowPath) {
+	emit := func(s string) {
+		for _, p := range paths {
+			p.add(s)
+		}
+	}
+	ast.Inspect(n, func(n ast.Node) bool {
+		switch x := n.(type) {
+		case *ast.FuncLit:
+			return false // the deferred recover()
+		case *ast.IfStmt:
+			cond := visText(fset, x.Cond)
+			body := visText(fset, x.Body)
+			switch cond {
+			case "!target.IsFilegroup && !needsBuilding(state, target, false)":
+				if strings.Contains(body, "validateBuildTargetBeforeBuild") {
+					failShape("buildTarget: validation inside the incrementality check is not a shape the C33 model knows")
+				}
+				if !strings.Contains(body, "return nil") {
+					failShape("buildTarget: the incrementality check no longer returns early: %s", body)
+				}
+				emit("BReturnIfUnchanged")
+				return false
+			case "target.IsFilegroup":
+				if strings.Contains(body, "buildFilegroup(state, target)") {
+					if strings.Contains(body, "validateBuildTargetBeforeBuild") {
+						failShape("buildTarget: validation inside the filegroup branch is not a shape the C33 model knows")
+					}
+					if !strings.HasSuffix(body, "return nil }") {
+						failShape("buildTarget: the filegroup branch no longer returns: %s", body)
+					}
+					emit("BBuildFilegroupReturn")
+					return false
+				}
+			}
+		case *ast.ReturnStmt:
+			if len(x.Results) == 1 {
+				if c, ok := x.Results[0].(*ast.CallExpr); ok && visText(fset, c.Fun) == "prepareOnly" {
+					emit("BReturnPrepareOnly")
+					return false
+				}
+			}
+		case *ast.CallExpr:
+			switch visText(fset, x.Fun) {
+			case "validateBuildTargetBeforeBuild":
+				if got := visText(fset, x); got != "validateBuildTargetBeforeBuild(state, target)" {
+					failShape("buildTarget: unexpected validation call %s", got)
+				}
+				emit("BValidate")
+			case "state.Parser.RunPreBuildFunction":
+				emit("BPreBuild")
+			case "state.RemoteClient.Build":
+				emit("BRemoteBuild")
+			case "retrieveArtifacts":
+				emit("BRetrieveReturn")
+			case "build":
+				emit("BBuild")
+			}
+		}
+		return true
+	})
+}
+
+func init() {
+	targets["VisibilityFlow"] = func() string {
+		// --- build_step.go -----------------------------------------------------------------------
+		fsB, fb := parseFile("src/build/build_step.go")
+		m := visText(fsB, findFunc(fb, "", "validateBuildTargetBeforeBuild").Body)
+		if !strings.HasPrefix(m, "{ if err := target.CheckDependencyVisibility(state); err != nil { return err }") {
+			failShape("validateBuildTargetBeforeBuild does not start with the dependency-visibility check: %s", m)
+		}
+		bt := findFunc(fb, "", "buildTarget")
+		local, remote := &flowPath{}, &flowPath{}
+		split := false
+		for _, st := range bt.Body.List {
+			if is, ok := st.(*ast.IfStmt); ok && !split && visText(fsB, is.Cond) == "runRemotely" && is.Init == nil {
+				eb, ok := is.Else.(*ast.BlockStmt)
+				if !ok {
+					failShape("buildTarget: `if runRemotely` without an else block")
+				}
+				split = true
+				flowScan(fsB, is.Body, remote)
+				flowScan(fsB, eb, local)
+				continue
+			}
+			flowScan(fsB, st, local, remote)
+		}
+		if !split {
+			failShape("buildTarget: the local/remote split `if runRemotely { ... } else { ... }` was not found")
+		}
+		// every validation must be followed by the error return
+		nVal := 0
+		ast.Inspect(bt.Body, func(n ast.Node) bool {
+			switch x := n.(type) {
+			case *ast.IfStmt:
+				if x.Init != nil && strings.Contains(visText(fsB, x.Init), "validateBuildTargetBeforeBuild") {
+					if got := visText(fsB, x); got != "if err := validateBuildTargetBeforeBuild(state, target); err != nil { return err }" {
+						failShape("buildTarget: unexpected shape of the validation: %s", got)
+					}
+					nVal++
+				}
+			case *ast.AssignStmt:
+				if strings.Contains(visText(fsB, x), "validateBuildTargetBeforeBuild") && visText(fsB, x) == "err = validateBuildTargetBeforeBuild(state, target)" {
+					nVal++
+				}
+			}
+			return true
+		})
+		src := visText(fsB, bt.Body)
+		if c := strings.Count(src, "validateBuildTargetBeforeBuild("); c != nVal {
+			failShape("buildTarget: %d validation calls, %d of them in a recognised shape", c, nVal)
+		}
+		if strings.Contains(src, "err = validateBuildTargetBeforeBuild(state, target)") &&
+			!strings.Contains(src, "err = validateBuildTargetBeforeBuild(state, target) if err != nil { return err }") {
+			failShape("buildTarget: the result of the validation is not returned")
+		}
+
+		// --- targets.go --------------------------------------------------------------------------
+		fsP, fp := parseFile("src/parse/asp/targets.go")
+		pv := findFunc(fp, "", "parseVisibility")
+		if len(pv.Body.List) != 4 {
+			failShape("parseVisibility: expected 4 statements, found %d", len(pv.Body.List))
+		}
+		first, ok := pv.Body.List[0].(*ast.IfStmt)
+		if !ok || first.Init != nil || first.Else != nil || visText(fsP, first.Body) != "{ return core.WholeGraph[0] }" {
+			failShape("parseVisibility: the first statement is not `if <cond> { return core.WholeGraph[0] }`")
+		}
+		var always, bazel []string
+		for _, d := range flowDisjuncts(first.Cond) {
+			b, ok := d.(*ast.BinaryExpr)
+			if !ok {
+				failShape("parseVisibility: unrecognised disjunct %s", visText(fsP, d))
+			}
+			eq := b
+			underBazel := false
+			if b.Op == token.LAND {
+				if visText(fsP, b.X) != "s.state.Config.Bazel.Compatibility" {
+					failShape("parseVisibility: unrecognised guard %s", visText(fsP, b.X))
+				}
+				underBazel = true
+				eq, ok = flowUnparen(b.Y).(*ast.BinaryExpr)
+				if !ok {
+					failShape("parseVisibility: unrecognised disjunct %s", visText(fsP, d))
+				}
+			}
+			lit, isLit := flowStr(eq.Y)
+			if eq.Op != token.EQL || visText(fsP, eq.X) != "vis" || !isLit {
+				failShape("parseVisibility: unrecognised comparison %s", visText(fsP, eq))
+			}
+			if underBazel {
+				bazel = append(bazel, lit)
+			} else {
+				always = append(always, lit)
+			}
+		}
+		visMatch("parseVisibility (after the special strings)", visText(fsP, &ast.BlockStmt{List: pv.Body.List[1:]}), `{
+			l := s.parseLabelInPackage(vis, s.pkg)
+			if s.state.Config.Bazel.Compatibility {
+				switch l.Name {
+				case §S: l.Name = §S
+				case §S: l.Name = §S } }
+			return l }`)
+		var firstPublic []string
+		ast.Inspect(findFunc(fp, "", "populateTarget"), func(n ast.Node) bool {
+			if is, ok := n.(*ast.IfStmt); ok && is.Init != nil && visText(fsP, is.Init) == "vis, ok := asList(args[visibilityBuildRuleArgIdx])" {
+				firstPublic = visMatch("the visibility block of populateTarget", visText(fsP, is), `if vis, ok := asList(args[visibilityBuildRuleArgIdx]); ok && len(vis) != 0 {
+					if v, ok := vis[0].(pyString); ok && v == §S { t.Visibility = core.WholeGraph
+					} else { addStrings(s, §S, args[visibilityBuildRuleArgIdx], func(str string) { t.Visibility = append(t.Visibility, parseVisibility(s, str)) }) } }`)
+				return false
+			}
+			return true
+		})
+		if firstPublic == nil {
+			failShape("populateTarget: the visibility block was not found")
+		}
+
+		// --- objects.go / builtins.go / interpreter.go --------------------------------------------
+		fsO, fo := parseFile("src/parse/asp/objects.go")
+		mg := findFunc(fo, "pyConfig", "Merge")
+		if len(mg.Body.List) != 2 {
+			failShape("pyConfig.Merge: expected 2 statements, found %d", len(mg.Body.List))
+		}
+		nilIf, ok := mg.Body.List[0].(*ast.IfStmt)
+		if !ok || nilIf.Init != nil || nilIf.Else != nil || visText(fsO, nilIf.Cond) != "c.overlay == nil" {
+			failShape("pyConfig.Merge: the first statement is not `if c.overlay == nil { ... }`")
+		}
+		var nilBranch []string
+		for _, st := range nilIf.Body.List {
+			switch t := visText(fsO, st); t {
+			case "c.overlay = make(pyDict, len(other.overlay))", "c.overlay = make(pyDict)", "c.overlay = pyDict{}":
+				nilBranch = append(nilBranch, "MAllocFresh")
+			case "c.overlay = other.overlay":
+				nilBranch = append(nilBranch, "MAdopt")
+			case "return":
+				nilBranch = append(nilBranch, "MReturn")
+			default:
+				failShape("pyConfig.Merge: unrecognised statement in the nil branch: %s", t)
+			}
+		}
+		if t := visText(fsO, mg.Body.List[1]); t != "for k, v := range other.overlay { c.overlay[k] = v }" {
+			failShape("pyConfig.Merge: the second statement is not the entry-by-entry copy: %s", t)
+		}
+		visMatch("pyConfig.IndexAssign", visText(fsO, findFunc(fo, "pyConfig", "IndexAssign").Body), `{
+			key := string(index.(pyString))
+			if c.overlay == nil { c.overlay = pyDict{key: value} } else { c.overlay[key] = value } }`)
+		visMatch("pyConfig.Copy", visText(fsO, findFunc(fo, "pyConfig", "Copy").Body), `{ return &pyConfig{base: c.base} }`)
+		visMatch("pyConfig.Get", visText(fsO, findFunc(fo, "pyConfig", "Get").Body), `{
+			if c.overlay != nil { if obj, present := c.overlay[key]; present { return obj } }
+			if obj, present := c.base.dict[key]; present { return obj }
+			return fallback }`)
+		fsU, fu := parseFile("src/parse/asp/builtins.go")
+		visMatch("defaultFromConfig", visText(fsU, findFunc(fu, "", "defaultFromConfig").Body), `{
+			if arg == nil || arg == None { return config.Get(name, arg) }
+			return arg }`)
+		br := visText(fsU, findFunc(fu, "", "buildRule").Body)
+		keyRe := regexp.MustCompile(`args\[(visibility|testOnly)BuildRuleArgIdx\] = defaultFromConfig\(s\.config, args\[(visibility|testOnly)BuildRuleArgIdx\], ("[A-Z_]+")\)`)
+		keys := map[string]string{}
+		for _, mm := range keyRe.FindAllStringSubmatch(br, -1) {
+			if mm[1] != mm[2] {
+				failShape("buildRule: default of %s stored into %s", mm[2], mm[1])
+			}
+			keys[mm[1]] = mm[3]
+		}
+		if len(keys) != 2 {
+			failShape("buildRule: the defaultFromConfig lines for visibility and test_only were not found")
+		}
+		pk := visText(fsU, findFunc(fu, "", "pkg").Body)
+		for _, want := range []string{"k = strings.ToUpper(k)", "s.config.IndexAssign(pyString(k), v)"} {
+			if !strings.Contains(pk, want) {
+				failShape("package(): `%s` not found", want)
+			}
+		}
+		fsI, fi := parseFile("src/parse/asp/interpreter.go")
+		sa := visText(fsI, findFunc(fi, "scope", "SetAll").Body)
+		if !strings.Contains(sa, `if k == "CONFIG" {`) || !strings.Contains(sa, "s.config.Merge(c)") {
+			failShape("scope.SetAll: the CONFIG merge was not found")
+		}
+		si := visText(fsI, findFunc(fi, "interpreter", "Subinclude").Body)
+		for _, want := range []string{"s.config = i.scope.config.Copy()", `if s.config.overlay == nil { delete(locals, "CONFIG")`} {
+			if !strings.Contains(si, want) {
+				failShape("interpreter.Subinclude: `%s` not found", want)
+			}
+		}
+
+		steps := func(p *flowPath) string { return "[" + strings.Join(p.steps, "; ") + "]" }
+		return genHeader +
+			"(* buildTarget (src/build/build_step.go): validation, early returns and build effects in source order *)\n" +
+			"Inductive bstep := BValidate | BPreBuild | BReturnPrepareOnly | BReturnIfUnchanged | BBuildFilegroupReturn\n" +
+			"  | BRetrieveReturn | BBuild | BRemoteBuild.\n" +
+			"Definition build_target_local : list bstep := " + steps(local) + ".\n" +
+			"Definition build_target_remote : list bstep := " + steps(remote) + ".\n" +
+			"(* parseVisibility / populateTarget (src/parse/asp/targets.go) *)\n" +
+			"Definition public_strings : list string := " + coqStringList(always) + ".\n" +
+			"Definition bazel_public_strings : list string := " + coqStringList(bazel) + ".\n" +
+			"Definition first_element_public : string := " + coqString(firstPublic[0]) + ".\n" +
+			"(* pyConfig.Merge (src/parse/asp/objects.go): `if c.overlay == nil { nil_branch }; copy` *)\n" +
+			"Inductive mstmt := MAllocFresh | MAdopt | MReturn | MCopyAll.\n" +
+			"Definition merge_nil_branch : list mstmt := [" + strings.Join(nilBranch, "; ") + "].\n" +
+			"Definition merge_rest : list mstmt := [MCopyAll].\n" +
+			"(* buildRule (src/parse/asp/builtins.go): the CONFIG keys of the per-package defaults *)\n" +
+			"Definition default_visibility_key : string := " + keys["visibility"] + ".\n" +
+			"Definition default_testonly_key : string := " + keys["testOnly"] + ".\n"
+	}
+}
